@@ -255,20 +255,20 @@ Section GenericCap.
   Hypothesis P_grown : forall s s' bl c size, P s bl -> same_elems s s' -> P s' (grown bl c size).
   (* F: what is known while the vector has never allocated (e.g. "the abstract list is empty");
      a first block only has to satisfy P under F *)
-  Variable F : Prop.
-  Hypothesis P_fresh : F -> forall s' size a c, P s' (fresh_block size a 0 c a).
+  Variable F : state -> Prop.
+  Hypothesis P_fresh : forall s s', F s -> same_elems s s' -> forall size a c, P s' (fresh_block size a 0 c a).
 
   Definition vec_okP (s : state) (v : nat) : Prop :=
-    (vec_sentinel s v /\ F) \/ exists b bl, vec_at s v b bl /\ block_ok cfg bl /\ P s bl.
+    (vec_sentinel s v /\ F s) \/ exists b bl, vec_at s v b bl /\ block_ok cfg bl /\ P s bl.
 
   Lemma grow_sentinel_okP s v c :
-    vec_sentinel s v -> F -> 0 <= c < W64 ->
+    vec_sentinel s v -> F s -> 0 <= c < W64 ->
     post (grow cfg v c (max_align cfg) s) (fun _ s' => vec_okP s' v) (fun s' => s' = s).
   Proof.
     intros Hv HF Hc.
     eapply post_weaken; [apply (grow_sentinel cfg ncap Hcfg s v c (max_align cfg) Hv Hc (max_align_pow2 cfg Hcfg)); lia | |].
     - intros u s' [(_ & _ & ->)|(size & _ & Hb & Ha)]; [left; split; assumption|].
-      right. eexists. eexists. split; [eapply allocated_vec_at; exact Ha|]. split; [exact Hb|apply P_fresh; exact HF].
+      right. eexists. eexists. split; [eapply allocated_vec_at; exact Ha|]. split; [exact Hb|apply P_fresh with (s := s); [exact HF|exact (al_same _ _ _ _ Ha)]].
     - intros s' [-> _]. reflexivity.
   Qed.
 
